@@ -90,7 +90,7 @@ fn exec(
     budget: u64,
     max_calls: u64,
 ) -> u64 {
-    let mut rng = Mon::new(Scripted::new(seed, pos, word)).budget(u64::MAX);
+    let mut rng = Mon::new(AnyWords::S(Scripted::new(seed, pos, word))).budget(u64::MAX);
     let mut call = 0u64;
     loop {
         let before = rng.count;
@@ -119,7 +119,7 @@ fn exec(
             Caught::ReplayExhausted => unreachable!(),
         }
         call += 1;
-        if rng.inner.idx > pos || call >= max_calls {
+        if rng.inner.idx() > pos || call >= max_calls {
             return call;
         }
     }
@@ -172,7 +172,7 @@ pub fn run(job: &Value) {
         let mut rstats = Stats::new();
         {
             let seed = mix(&[cseed, 1]);
-            let mut rng = Mon::new(Scripted::plain(seed));
+            let mut rng = Mon::new(AnyWords::S(Scripted::plain(seed)));
             let mut call = 0u64;
             while call < random_calls {
                 let before = rng.count;
@@ -257,7 +257,7 @@ pub fn replay(rec: &Value) {
             return;
         }
     };
-    let mut rng = Mon::new(Scripted::new(seed, pos, word));
+    let mut rng = Mon::new(AnyWords::S(Scripted::new(seed, pos, word)));
     for call in 0..=call_target {
         let before = rng.count;
         rng.budget = before + 100_000;
